@@ -217,7 +217,7 @@ class Emitter:
 
 
 HEADER = """From Coq Require Import String Ascii NArith Bool List.
-From UFLV Require Import Props.C29_model.
+From UFLV Require Import Props.C29_model Props.C29_sorted.
 Import ListNotations.
 Open Scope N_scope.
 Open Scope string_scope.
